@@ -69,67 +69,99 @@ fn config_of(c: &Value) -> Result<SanitizerConfig, String> {
         None => SanitizerConfig::new(),
         Some(x) => return Err(format!("harness: mode {x}")),
     };
-    if crate::b(c, "remove_reply_fallback") {
-        cfg = cfg.remove_reply_fallback();
-    }
-    if let Some(v) = c.get("allow_elements") {
-        cfg = cfg.allow_elements(strs(&v["list"]), behavior(v));
-    }
-    if let Some(v) = c.get("remove_elements") {
-        cfg = cfg.remove_elements(strs(v));
-    }
-    if let Some(v) = c.get("ignore_elements") {
-        cfg = cfg.ignore_elements(strs(v));
-    }
-    if let Some(v) = c.get("replace_elements") {
-        let reps: Vec<NameReplacement> = v["list"]
-            .as_object()
-            .map(|m| {
-                m.iter()
-                    .map(|(k, n)| NameReplacement { old: intern(k), new: intern(n.as_str().unwrap_or("span")) })
-                    .collect()
-            })
-            .unwrap_or_default();
-        cfg = cfg.replace_elements(reps, behavior(v));
-    }
-    if let Some(v) = c.get("replace_attrs") {
-        let mut reps = vec![];
-        if let Some(m) = v["list"].as_object() {
-            for (el, r) in m {
-                let rs: Vec<NameReplacement> = r
-                    .as_object()
-                    .map(|m| {
-                        m.iter()
-                            .map(|(k, n)| NameReplacement { old: intern(k), new: intern(n.as_str().unwrap_or("x")) })
-                            .collect()
-                    })
-                    .unwrap_or_default();
-                let rs: &'static [NameReplacement] = Box::leak(rs.into_boxed_slice());
-                reps.push(ElementAttributesReplacement { element: intern(el), replacements: rs });
-            }
+    // Builder calls are applied in the order given by "order" (then the remaining keys in a fixed
+    // order): every call sets its own part of the configuration, so the result must not depend on it.
+    const KEYS: [&str; 14] = ["remove_reply_fallback", "allow_elements", "remove_elements", "ignore_elements",
+        "replace_elements", "replace_attrs", "allow_attrs", "remove_attrs", "allow_schemes", "deny_schemes",
+        "allow_classes", "remove_classes", "max_depth", "_end"];
+    let mut order: Vec<String> = c
+        .get("order")
+        .and_then(Value::as_array)
+        .map(|a| a.iter().filter_map(|x| x.as_str().map(str::to_owned)).collect())
+        .unwrap_or_default();
+    for k in KEYS {
+        if !order.iter().any(|o| o == k) {
+            order.push(k.to_owned());
         }
-        cfg = cfg.replace_attributes(reps, behavior(v));
     }
-    if let Some(v) = c.get("allow_attrs") {
-        cfg = cfg.allow_attributes(props(&v["list"]), behavior(v));
+    for key in &order {
+        cfg = apply_builder(cfg, c, key)?;
     }
-    if let Some(v) = c.get("remove_attrs") {
-        cfg = cfg.remove_attributes(props(v));
+    Ok(cfg)
+}
+
+fn apply_builder(mut cfg: SanitizerConfig, c: &Value, key: &str) -> Result<SanitizerConfig, String> {
+    if key == "remove_reply_fallback" {
+        if crate::b(c, "remove_reply_fallback") {
+            cfg = cfg.remove_reply_fallback();
+        }
+        return Ok(cfg);
     }
-    if let Some(v) = c.get("allow_schemes") {
-        cfg = cfg.allow_schemes(schemes(&v["list"]), behavior(v));
+    if key == "max_depth" {
+        if let Some(d) = c.get("max_depth").and_then(Value::as_u64) {
+            cfg = cfg.max_depth(d as u32);
+        }
+        return Ok(cfg);
     }
-    if let Some(v) = c.get("deny_schemes") {
-        cfg = cfg.deny_schemes(schemes(v));
-    }
-    if let Some(v) = c.get("allow_classes") {
-        cfg = cfg.allow_classes(props(&v["list"]), behavior(v));
-    }
-    if let Some(v) = c.get("remove_classes") {
-        cfg = cfg.remove_classes(props(v));
-    }
-    if let Some(d) = c.get("max_depth").and_then(Value::as_u64) {
-        cfg = cfg.max_depth(d as u32);
+    let Some(v) = c.get(key) else { return Ok(cfg) };
+    match key {
+        "allow_elements" => {
+            cfg = cfg.allow_elements(strs(&v["list"]), behavior(v));
+        }
+        "remove_elements" => {
+            cfg = cfg.remove_elements(strs(v));
+        }
+        "ignore_elements" => {
+            cfg = cfg.ignore_elements(strs(v));
+        }
+        "replace_elements" => {
+            let reps: Vec<NameReplacement> = v["list"]
+                .as_object()
+                .map(|m| {
+                    m.iter()
+                        .map(|(k, n)| NameReplacement { old: intern(k), new: intern(n.as_str().unwrap_or("span")) })
+                        .collect()
+                })
+                .unwrap_or_default();
+            cfg = cfg.replace_elements(reps, behavior(v));
+        }
+        "replace_attrs" => {
+            let mut reps = vec![];
+            if let Some(m) = v["list"].as_object() {
+                for (el, r) in m {
+                    let rs: Vec<NameReplacement> = r
+                        .as_object()
+                        .map(|m| {
+                            m.iter()
+                                .map(|(k, n)| NameReplacement { old: intern(k), new: intern(n.as_str().unwrap_or("x")) })
+                                .collect()
+                        })
+                        .unwrap_or_default();
+                    let rs: &'static [NameReplacement] = Box::leak(rs.into_boxed_slice());
+                    reps.push(ElementAttributesReplacement { element: intern(el), replacements: rs });
+                }
+            }
+            cfg = cfg.replace_attributes(reps, behavior(v));
+        }
+        "allow_attrs" => {
+            cfg = cfg.allow_attributes(props(&v["list"]), behavior(v));
+        }
+        "remove_attrs" => {
+            cfg = cfg.remove_attributes(props(v));
+        }
+        "allow_schemes" => {
+            cfg = cfg.allow_schemes(schemes(&v["list"]), behavior(v));
+        }
+        "deny_schemes" => {
+            cfg = cfg.deny_schemes(schemes(v));
+        }
+        "allow_classes" => {
+            cfg = cfg.allow_classes(props(&v["list"]), behavior(v));
+        }
+        "remove_classes" => {
+            cfg = cfg.remove_classes(props(v));
+        }
+        _ => {}
     }
     Ok(cfg)
 }
